@@ -27,6 +27,11 @@ Definition is_deposit_of (a : string) (o : op) : bool :=
   | _ => false
   end.
 
+(* value may also flow in when the native token is delegated: bank account -> escrow *)
+Definition is_inflow_of (a : string) (o : op) : bool :=
+  is_deposit_of a o ||
+  match o with Delegate _ b _ _ => String.eqb a b && is_native b | _ => false end.
+
 (* [f log_before before obs log_after after] *)
 Fixpoint mon_walk (f : dump -> obs -> list gev -> dump -> bool) (g : list gev) (d : dump) (l : list obs) (i : nat) : option nat :=
   match l with
@@ -44,12 +49,16 @@ Definition mon_conservation (c : case) : option nat :=
 (* only a deposit increases the value; a rejected op changes nothing *)
 Definition mon_only_deposit (c : case) : option nat :=
   mon_walk (fun d o _ d' =>
-              forallb (fun a => (value_d a d' <=? value_d a d) || (is_deposit_of a (o_op o) && res_eqb (o_res o) ROk)) (assets_of d) &&
+              forallb (fun a => (value_d a d' <=? value_d a d) || (is_inflow_of a (o_op o) && res_eqb (o_res o) ROk)) (assets_of d) &&
               (match o_res o, o_op o with
                | ROk, _ | _, EndBlock => true
                | _, _ => dump_eqb d d'
                end))
            [] (c_init c) (c_steps c) 1.
+
+(* T.4: after every op the escrow account holds at least the native pools plus what native pending undelegations still owe *)
+Definition mon_escrow (c : case) : option nat :=
+  if escrow_ok_d (c_init c) then mon_walk (fun _ _ _ d' => escrow_ok_d d') [] (c_init c) (c_steps c) 1 else Some 0%nat.
 
 (* no figure is ever negative *)
 Definition mon_nonneg (c : case) : option nat :=
